@@ -67,6 +67,40 @@ Theorem C05_half_close :
 Proof. exact half_close_proof. Qed.
 Print Assumptions C05_half_close.
 
+(* The grace period is counted from the end of stream, not from the start of the relay: whenever a direction's
+   step ends cleanly at time t - t being the completion time of THAT read, which for a socket read reporting
+   end of stream is max(now, eof instant) (sock_read_eof_time) - the deadline armed on the socket it writes to
+   is exactly t + grace and the relay's clock is t, for every relay state (hence every script, connection age,
+   stack and interleaving).  C05_half_close is the observable consequence (the other direction is cut at
+   "end of stream seen + grace" and nowhere else); this theorem pins the mechanism itself. *)
+Theorem C05_grace_from_eof :
+  forall grace pend y,
+    (forall d' s' t, dir_step pend (y_l2r y) (y_L y) (y_now y) = (d', s', t) -> d_phase d' = PDone None ->
+       k_dl (y_R (advance grace pend true y)) = Some (t + grace) /\ y_now (advance grace pend true y) = t
+       /\ k_closed (y_R (advance grace pend true y)) = k_closed (y_R y) /\ y_L (advance grace pend true y) = s')
+    /\
+    (forall d' s' t, dir_step false (y_r2l y) (y_R y) (y_now y) = (d', s', t) -> d_phase d' = PDone None ->
+       k_dl (y_L (advance grace pend false y)) = Some (t + grace) /\ y_now (advance grace pend false y) = t
+       /\ k_closed (y_L (advance grace pend false y)) = k_closed (y_L y) /\ y_R (advance grace pend false y) = s').
+Proof. intros grace pend y. split; [exact (grace_from_eof_left grace pend y)|exact (grace_from_eof_right grace pend y)]. Qed.
+Print Assumptions C05_grace_from_eof.
+
+Theorem C05_eof_read_time :
+  forall now n s r s' t, sock_read now n s = (r, s', t) -> r_err r = Some EEof ->
+    exists e, k_eof s = Some e /\ t = N.max now e.
+Proof. exact sock_read_eof_time. Qed.
+Print Assumptions C05_eof_read_time.
+
+(* a connection three grace periods old: the reply that comes half a grace period after the client's end of
+   stream is delivered and both ends of stream are passed on *)
+Example C05_nonvacuous_old_connection :
+  let client := mkSide [mkChunk 0 [1;2]; mkChunk 29900 [3]] (Some 30000) in
+  let server := mkSide [mkChunk 110 [7]; mkChunk 35010 [8;9]] (Some 35110) in
+  let o := connection (mkP 22 1000 false 2 false DnsErr []) c05_half_close_ms false true client server in
+  o_up o = [1;2;3] /\ o_down o = [7;8;9] /\ o_up_shut o = true /\ o_down_shut o = true
+  /\ o_cw_up o = (1, 30000, 3) /\ o_cw_down o = (1, 35110, 3) /\ o_err o = false.
+Proof. vm_compute. repeat split. Qed.
+
 (* Detection delays the connection by no more than the sum of the windows of the stages that ran (C05_Spec). *)
 Theorem C05_detection_delay_bounded :
   forall (p : pcase) (s0 : sock) (now0 : N),
